@@ -267,3 +267,25 @@ Definition svd_compress (slices : list (mat F)) (thr : F) (max_rank : option nat
   let rl := match max_rank with Some m => Nat.min nc m | None => nc end in
   map (fun p => compress_slice rl thr (fst p) (snd p)) (combine slices tapes).
 End M2.
+
+Section M3.
+Context {F : Type} (Op : fops F).
+(* ------------------------------------------------------------------ the input forms of the CP entry points
+   A CP tensor reaches cp_mode_dot / cp_flip_sign either as a CPTensor object (weights None already replaced by ones
+   by the constructor) or as a plain (weights, factors) tuple, whose weights may be None.  Modelled as they are:
+     cp_mode_dot, tuple, copy=False : the result is written back through `cp_tensor.shape = ...`  -> AttributeError
+     cp_mode_dot, tuple, copy=True, weights None : T.copy(None) is a 0-d object array -> rejected by the CPTensor constructor
+     cp_flip_sign, tuple, weights None : T.sign(None) -> TypeError *)
+Definition cp_rank (fs : list (mat F)) : nat := ncols (hd [] fs).
+Definition cp_mode_dot_api (is_class copy : bool) (w : option (list F)) (fs : list (mat F)) (x : operand)
+  (mode : nat) (keep_dim : bool) : res (list F * list (mat F)) :=
+  if is_class then cp_mode_dot Op (match w with Some w0 => w0 | None => ones Op (cp_rank fs) end) fs x mode keep_dim
+  else if copy then match w with Some w0 => cp_mode_dot Op w0 fs x mode keep_dim | None => Err end
+  else Err.
+Definition cp_flip_sign_api (is_class : bool) (summ : list F -> F) (w : option (list F)) (fs : list (mat F)) (mode : nat)
+  : res (list F * list (mat F)) :=
+  match w with
+  | Some w0 => cp_flip_sign Op summ w0 fs mode
+  | None => if is_class then cp_flip_sign Op summ (ones Op (cp_rank fs)) fs mode else Err
+  end.
+End M3.
